@@ -81,6 +81,10 @@ func init() {
 		Variant{ID: "c09-r5-bitcount-inclusive", Prop: "C09", File: "replication/binlog_event.go",
 			Old: "\tfor i := 0; i < b.count; i++ {\n\t\tif b.Bit(i) {", New: "\tfor i := 0; i < len(b.data)*8; i++ {\n\t\tif b.Bit(i) {",
 			Expect: "C09-R5 count@BitCount"},
+		Variant{ID: "c09-r3-null-index-carried", Prop: "C09", File: "replication/binlog_event_rbr.go",
+			Old: "\t\t\t// Get the values.\n\t\t\tstartPos := pos\n\t\t\tvalueIndex := 0\n", New: "\t\t\t// Get the values.\n\t\t\tstartPos := pos\n\t\t\tvalueIndex := numIdentifyColumns - numIdentifyColumns + len(result.Rows)*0 + carry\n",
+			Old2: "\t// One row at a time.\n", New2: "\tcarry := 0\n\tif hasIdentify && columnCount > 64 {\n\t\tcarry = 1\n\t}\n\t// One row at a time.\n",
+			Expect: "C09-R3 skeleton@Rows"},
 	)
 }
 
@@ -371,6 +375,32 @@ func c09R3R4(a *A, cd *codec) {
 				a.check(ok, rule, key+"["+cls+"]", w.posOf(rl.Len), "column ordinal +1, NULL index +"+want[cls]["idx"]+", offset +"+want[cls]["off"],
 					fmt.Sprintf("on the %s-column path %s: presence/NULL/offset bookkeeping drifts and later columns are mis-read", cls, strings.Join(diffs, ", ")))
 			}
+			// every image is walked from its own first column and first NULL bit: the ordinal and the NULL index start at 0
+			// each time the loop is entered (an index carried over from the previous image or row mis-reads the bitmap)
+			var badInit []string
+			for vn, phi := range map[string]*ssa.Phi{"column ordinal": rl.C, "NULL index": rl.Idx} {
+				for i, p := range rl.Header.Preds {
+					if rl.Header.Dominates(p) {
+						continue
+					}
+					if k, isK := constInt(resolve(phi.Edges[i])); !isK || k != 0 {
+						badInit = append(badInit, fmt.Sprintf("%s starts from %s", vn, describe(resolve(phi.Edges[i]))))
+					}
+				}
+			}
+			if fn != "Rows" {
+				for i, p := range rl.Header.Preds {
+					if rl.Header.Dominates(p) {
+						continue
+					}
+					if k, isK := constInt(resolve(rl.Off.Edges[i])); !isK || k != 0 {
+						badInit = append(badInit, fmt.Sprintf("offset starts from %s", describe(resolve(rl.Off.Edges[i]))))
+					}
+				}
+			}
+			sort.Strings(badInit)
+			a.check(len(badInit) == 0, rule, key+"[init]", w.posOf(rl.Len), "ordinal, NULL index (and image offset) start at 0 for every image",
+				"the walk over an image does not start at its first column / first NULL bit / first byte ("+strings.Join(badInit, "; ")+"): with more than one image or row the NULL bitmap and values are read at the wrong place")
 			// length call arguments: offset phi, Types[c], Metadata[c]
 			args := rl.Len.Common().Args
 			tp, ok1 := indexedBy(args[2], rl.C)
